@@ -99,8 +99,8 @@ type Rig struct {
 	wg             sync.WaitGroup
 	baseline       int
 	lateShutdown   atomic.Bool // shutdownResolver's report did not show within the watchdog (set by the call goroutine)
-	unsound        bool // a wait expired while something was still running: the model no longer describes the run
-	openGoroutines int // goroutines of the open split: the parked call (and its worker), blocked nested calls
+	unsound        bool        // a wait expired while something was still running: the model no longer describes the run
+	openGoroutines int         // goroutines of the open split: the parked call (and its worker), blocked nested calls
 	stepNo         int
 	t0             time.Time
 	cfgMu          sync.Mutex
